@@ -66,6 +66,15 @@ CHECKS = {
          "(known findings).",
     technique="Coq proof by reflection over regenerated tables (translator) + check_node oracle",
     ref="4 C11"),
+ "C12": dict(
+    text="PROOF (coq/props/C12.v): build restores the name of every Var the caller holds on every outcome, also when one Var is "
+         "listed under several names (save-once invariant; refutation of the pinned tree's overwrite-save); only reachable nodes are "
+         "emitted (nothing constructed earlier can show up). CORRESPONDENCE: every build of random histories over a shared pool vs "
+         "the model. ORACLE: snapshots of name/type/value of every reachable Var and of inlined model bytes around each step, "
+         "byte-identical rebuilds, and the same histories in fresh processes under 4 PYTHONHASHSEEDs / prior allocations.",
+    note=TB + "Address and hash-seed independence of the real code is established by execution, not proof.",
+    technique="Coq proof (store invariant) + history correspondence + multi-process determinism runs",
+    ref="4 C12"),
  "C19": dict(
     text="PROOF (coq/props/C19.v): every callback occurs exactly once in the constructor's trace; builds add no call; argument types "
          "as ONNX prescribes for If/Loop/Scan/SequenceMap; output count from results; malformed callbacks -> TypeError; refutations "
